@@ -4,6 +4,9 @@ package server
 
 import (
 	"fmt"
+	"github.com/cbeuw/Cloak/internal/vnet"
+	"net"
+	"strings"
 
 	"github.com/cbeuw/Cloak/internal/server/usermanager"
 	"github.com/cbeuw/Cloak/internal/vrt"
@@ -27,7 +30,7 @@ func init() {
 		var rig *e2eRig
 		var capViolation string
 		sc := &vrt.Scenario{
-			Opt: vrt.Options{HorizonNs: int64(200 * time.Second), Delay: c.P("delay", "1") == "1", MemVars: true, Invariant: func() {
+			Opt: vrt.Options{HorizonNs: int64(200 * time.Second), Delay: c.P("delay", "1") == "1", MemVars: true, MemPoints: c.P("mem", "0") == "1", Invariant: func() {
 				if rig == nil {
 					return
 				}
@@ -62,12 +65,26 @@ func init() {
 				}
 				r := newE2ERig(newEvManager(base), nil, nil)
 				rig = r
+				// replyfault=first: the server cannot write its reply on the first of the connections that arrive
+				// together (the client has gone); no connection that ever belonged to a session fails
+				faultedPair := ""
+				if c.P("replyfault", "") == "first" {
+					r.wrapAccepted = func(i int, cn net.Conn) net.Conn {
+						if i == len(pre) {
+							faultedPair = strings.TrimSuffix(cn.(*vnet.Conn).Name, "/b")
+							return deafConn{cn}
+						}
+						return cn
+					}
+				}
 				r.serve(len(conns) + len(pre))
 				type res struct {
 					u, s int
 					key  [32]byte
 					err  error
+					conn net.Conn
 				}
+				var dialled []net.Conn
 				results := make([]res, len(conns))
 				connect := func(spec string) res {
 					var u, s int
@@ -77,17 +94,19 @@ func init() {
 					if err != nil {
 						vrt.Fail("harness", "dial: %v", err)
 					}
+					dialled = append(dialled, conn)
 					// a connection the server neither answers nor closes must not block the harness forever
 					conn.SetReadDeadline(time.Now().Add(5 * time.Second)) // well below the 30 s inactivity timeout of the sessions
 					tr := remote.Transport.CreateTransport()
 					key, err := tr.Handshake(conn, auth)
-					return res{u, s, key, err}
+					return res{u, s, key, err, conn}
 				}
 				for _, p := range pre {
 					if rr := connect(p); rr.err != nil {
 						vrt.Fail("harness", "pre-admitted connection %s failed: %v", p, rr.err)
 					}
 				}
+				dialled = nil // the fault concerns the connections that arrive together, not the pre-admitted ones
 				var wg sync.WaitGroup
 				for i, spec := range conns {
 					i, spec := i, spec
@@ -97,6 +116,7 @@ func init() {
 						results[i] = connect(spec)
 					})
 				}
+				var faulted net.Conn // (no connection-level fault in this driver; see replyfault)
 				if closer != "" {
 					var u, s int
 					fmt.Sscanf(closer, "%d.%d", &u, &s)
@@ -177,6 +197,31 @@ func init() {
 						}
 					}
 				}
+				// nothing stands in the way of these connections (no closure, every user within its cap): each
+				// client completes its handshake - a reply the client cannot open is not an answer
+				if closer == "" {
+					within := true
+					for u := 0; u < 2; u++ {
+						want := map[int]bool{}
+						for _, spec := range append(append([]string{}, pre...), conns...) {
+							var uu, s int
+							fmt.Sscanf(spec, "%d.%d", &uu, &s)
+							if uu == u {
+								want[s] = true
+							}
+						}
+						if len(want) > cap {
+							within = false
+						}
+					}
+					if within {
+						for i, rr := range results {
+							if rr.err != nil && rr.conn != faulted && !(faultedPair != "" && strings.TrimSuffix(rr.conn.(*vnet.Conn).Name, "/a") == faultedPair) {
+								vrt.Fail("joined-the-session", "connection %d (%s) is within its user's cap and nothing was closed, yet the client's handshake failed: %v", i, conns[i], rr.err)
+							}
+						}
+					}
+				}
 				ok := 0
 				for _, rr := range results {
 					if rr.err == nil {
@@ -210,6 +255,10 @@ func init() {
 			{Scenario: "srv.join", Params: vx.P("conns", "0.1,0.2,0.3", "cap", "2", "db", "bolt"), Bound: b(1, 2), Weight: 8},
 			{Scenario: "srv.join", Params: vx.P("conns", "0.1,0.2", "cap", "0", "db", "bolt"), Bound: b(1, 2), Weight: 5},
 			{Scenario: "srv.join", Params: vx.P("conns", "0.1,0.1", "cap", "2", "delay", "0"), Bound: b(1, 2), Weight: 8},
+			// with memory points before unsynchronised writes (shared package-level state touched by two handshakes)
+			{Scenario: "srv.join", Params: vx.P("conns", "0.1,0.1,0.1", "cap", "2", "pre", "0.7", "replyfault", "first"), Bound: b(2, 3), Weight: 7},
+			{Scenario: "srv.join", Params: vx.P("conns", "0.1,1.1", "cap", "1", "mem", "1"), Bound: b(1, 2), Weight: 6},
+			{Scenario: "srv.join", Params: vx.P("conns", "0.1,0.1", "cap", "1", "mem", "1"), Bound: b(1, 2), Weight: 6},
 		}
 		jobs = append(jobs, vx.Job{Scenario: "panel.history", Params: vx.P("depth", fmt.Sprint(b(6, 9))), Weight: 6})
 		for i := range jobs {
